@@ -216,6 +216,17 @@ def collect(check_name: str, runs: int, out_path: str) -> int:
     return core.EXIT_HARNESS if errors else core.EXIT_OK
 
 
+def tree_fingerprint() -> str:
+    """Digest of the sources the zygotes import; a run during which it changes proves nothing."""
+    import hashlib  # noqa: PLC0415
+
+    m = hashlib.sha256()
+    for path in sorted((core.REPO / "src").rglob("*.py")):
+        m.update(str(path).encode())
+        m.update(path.read_bytes())
+    return m.hexdigest()[:16]
+
+
 def _remove_stale_roots() -> None:
     """Simulation roots of driver/worker processes that no longer exist (killed runs)."""
     base = Path("/dev/shm")
@@ -232,6 +243,8 @@ def _remove_stale_roots() -> None:
 def run_check(check_name: str, tier: str, runs: int, budget_s: float, options: dict | None = None) -> int:
     """Run a check over runs 0..runs-1 (or until the budget), write evidence, print verdict."""
     _remove_stale_roots()
+    options = dict(options or {})
+    options["tree_fingerprint"] = tree_fingerprint()
     import importlib  # noqa: PLC0415
 
     options = dict(options or {})
@@ -333,6 +346,9 @@ def _report(check, prop, tier, seed_, records, extras, harness_errors, watch, op
     coverage["runs_per_hour"] = round(len(records) / max(watch.elapsed(), 1e-9) * 3600)
     coverage["known_findings_seen"] = sorted(listed)
     coverage["check_version"] = CHECK_VERSION
+    coverage["tree_fingerprint"] = options.get("tree_fingerprint")
+    if options.get("tree_fingerprint") and options["tree_fingerprint"] != tree_fingerprint():
+        harness_errors.append(f"sources under {core.REPO}/src changed while the check was running")
     coverage["determinism_recheck"] = {"runs_re_executed_under_other_worker_assignment": options.get("rechecked_runs", 0),
                                        "diverging_runs": options.get("nondeterministic_runs", [])}
     core.write_evidence(prop, tier, seed_, coverage, watch.elapsed(), len(new), check.ASSUMPTIONS)
